@@ -2,6 +2,9 @@
 import json
 
 import conn
+import fault
+import ketama
+import metrics
 import lin
 import orca
 
@@ -11,7 +14,10 @@ CHECKS = {
     "C03": lin.check_c03,
     "C08": conn.check,
     "C09": orca.check,
+    "C10": fault.check,
     "C12": lin.check_c12,
+    "C18": metrics.check,
+    "C19": ketama.check,
 }
 
 
